@@ -46,7 +46,7 @@ CLAIMS = {
  "C17": dict(category="proof", design="4/C17",
   text="Model of _reduce_sum / _reduce_count_nonzero (column sums of the x,y,z,t accessors; rho2!=0|z!=0|t2!=0) over the regenerated real model; by induction over the list, for every stored "
        "system: denote(sum vs) = fold of add over the denotations, sum [] = 0, sum of concatenation = sum of sums (axis-wise), permutation invariance, count_nonzero = number of elements whose "
-       "denotation is non-zero, flavor kept. Tie: NumPy 1-D/2-D all axes/keepdims and Awkward jagged (empty lists) reductions compared with exact fsum of the elements' Cartesian components.",
+       "denotation is non-zero, flavor kept. Tie: NumPy 1-D/2-D all axes/keepdims and Awkward jagged (empty lists) reductions compared with exact fsum of the elements' Cartesian components. AXIS MODEL (Glue/Reduce.lean, Props/C17Axis.lean, 79 theorems; Driver/Reduce.lean, harness/reduce.py): n-d arrays as shape + C-order data, axis normalisation as NumPy does it (None, negative, tuples, out of range, duplicates), keepdims, jagged lists with ak.sum's axis semantics; for every shape, axis set and keepdims: the result shape is the documented one (only the reduced axes disappear), each output element is the sum of exactly the inputs agreeing on the kept axes, reductions compose, count_nonzero is the sum of the indicator, and with Cartesian components the reduction over any axes is Props/C17's sum of each group (so the Cartesian-sum theorems hold for every axis). Tie: 5100 requests per quick run (13 call spellings, 16 shapes incl. length-one and size-0 axes, every axis spelling, all 20 systems) compared with the Lean driver.",
   note=TB + "floating-point summation order is not modelled (comparison tolerance 1e-12 relative).",
   technique="Lean 4 proofs by list induction over translator-generated accessors + numeric correspondence of reducers"),
  "C18": dict(category="proof", design="4/C18",
